@@ -71,7 +71,7 @@ def check_case(ctx, cs, precision=None, binsearch=False):
         small = dict(small, dir=dr)
         tg2 = tg + ["dir=" + dr]
         ctx.count((op, shape_key(sh), dr, precision, binsearch), sample={"op": op, **small, "pieces": len(o["pieces"])})
-        ok, pcs = _try(ctx, site, tg2, small, lambda: operations.decompose_curve(obj, **kw) if pd == 1 else operations.decompose_surface(obj, decompose_dir=dr, **kw))
+        ok, pcs = _try(ctx, site, tg2, small, lambda: operations.decompose_curve(obj, **kw) if pd == 1 else (operations.decompose_surface(obj, **kw) if dr == "uv" else operations.decompose_surface(obj, decompose_dir=dr, **kw)))
         if ok:
             if len(pcs) != len(o["pieces"]):
                 ctx.violate(site, tg2 + ["count"], small, {"expected": len(o["pieces"]), "got": len(pcs)})
